@@ -56,6 +56,9 @@ NoncePost == 16
 \* the signature key k made as RESPONDER (RespHello: over the transcript up to the InitHello) presented where
 \* an InitDone signature (over the transcript up to the RespHello) is expected: made by k, but not a proof
 XSig(k) == IF k = "A" THEN "xA" ELSE IF k = "B" THEN "xB" ELSE "xM"
+\* the signature key k made over the TIMESTAMP of one of its InitHellos (another purpose) presented where a
+\* channel-binding signature is expected: made by k, but not a proof either
+TSig(k) == IF k = "A" THEN "tA" ELSE IF k = "B" THEN "tB" ELSE "tM"
 
 InitState(s) == [hs |-> 0,
                  ih |-> IF Role[s] = "init" THEN IH(s, EphOf[s], KeyOf[s], KeyOf[s]) ELSE None,
@@ -117,7 +120,7 @@ ReadHandshake(s, v, m) ==
     ELSE IF Role[s] = "init" /\ v.hs = 0 /\ m.n = 1 THEN
         \* Noise: readable only if it answers this very InitHello; then the signature over the transcript
         IF v.dead THEN Err(v)
-        ELSE IF m.t = "RH" /\ m.ref = v.ih /\ (m.sig = m.key \/ "rhsig" \in Weak)
+        ELSE IF m.t = "RH" /\ m.ref = v.ih /\ (m.sig = m.key \/ "rhsig" \in Weak \/ ("purpose" \in Weak /\ m.sig = TSig(m.key)))
         THEN LET v2 == [v EXCEPT !.hs = 2, !.rh = m, !.rk = m.key]
              IN R3(v2, "hs", HsMsg(s, v2), 0)
         ELSE IF m.t = "RH" /\ m.ref = v.ih THEN Err([v EXCEPT !.dead = TRUE])
@@ -212,6 +215,9 @@ Forgeable ==
   \cup {RH("M", AEph, AKey, AKey, ih) : ih \in SeenIH}                            \* answer as oneself
   \cup {RH("M", AEph, k, "none", ih) : ih \in SeenIH, k \in HonestKeys}           \* claim a victim's key
   \cup {ID("M", sg, rh) : sg \in {AKey, "none"}, rh \in {x \in SeenRH : Owns(x)}}
+  \* cross-purpose reuse: the timestamp signature of an honest InitHello (sent in the clear) used as the
+  \* channel-binding signature of a RespHello that claims that key
+  \cup {RH("M", AEph, m.key, TSig(m.key), ih) : m \in {x \in SeenIH : x.by # "M"}, ih \in SeenIH}
   \* signature reflection: an honest responder's RespHello signature, read by the attacker because it owns the
   \* initiator ephemeral, sealed into an InitDone for a (possibly different) responder that answered the SAME InitHello
   \cup {ID("M", XSig(p[2].key), p[1]) : p \in {q \in SeenRH \X SeenRH :
@@ -237,9 +243,12 @@ Spec == Init /\ [][Next]_vars
 \* the reflection scenario on its own (deep in the full attacker model): initiators only emit their InitHello (the
 \* attacker needs one to splice a signed identity triple from), the attacker builds InitHellos around its own
 \* ephemeral and InitDones, and everything is delivered to the responders in every order
-ReflectForge == {m \in Forgeable : (m.t = "IH" /\ m.eph = AEph /\ m.sig = m.key) \/ m.t = "ID"}
+ReflectForge == {m \in Forgeable : \/ (m.t = "IH" /\ m.eph = AEph /\ m.sig = m.key) \/ m.t = "ID"
+                                    \/ (m.t = "RH" /\ m.sig = TSig(m.key)) \/ m.t = "RD"}
 ReflectNext == \/ \E s \in Sess : Role[s] = "init" /\ st[s].hs = 0 /\ Hs(s)
                \/ \E s \in Sess, m \in net : Role[s] = "resp" /\ Deliver(s, m)
+               \* the initiators only ever see what the attacker built for them
+               \/ \E s \in Sess, m \in net : Role[s] = "init" /\ m.by = "M" /\ m.t \in {"RH", "RD"} /\ Deliver(s, m)
                \/ \E m \in ReflectForge : Forge(m)
 ReflectSpec == Init /\ [][ReflectNext]_vars
 
